@@ -17,6 +17,8 @@ pub enum Fm {
     And(Vec<Fm>),
     Or(Vec<Fm>),
     Not(Box<Fm>),
+    /// Σ_i (if ∧_k a_ik == b_ik then m_i else 0) ≡ 0 (mod p): one LogUp balance equation.
+    SumIf(Vec<(Vec<(H, H)>, u64)>),
 }
 
 impl Fm {
@@ -38,6 +40,14 @@ impl Fm {
             }
             Fm::And(v) | Fm::Or(v) => v.iter().for_each(|f| f.roots(out)),
             Fm::Not(f) => f.roots(out),
+            Fm::SumIf(v) => {
+                for (eqs, _) in v {
+                    for (a, b) in eqs {
+                        out.push(*a);
+                        out.push(*b);
+                    }
+                }
+            }
         }
     }
 }
@@ -505,6 +515,14 @@ impl Solver {
                 }
             }
             Fm::Not(x) => format!("(not {})", self.fm_to_smt(x)),
+            Fm::SumIf(v) => {
+                let mut terms = vec!["0".to_string()];
+                for (eqs, m) in v {
+                    let conds: Vec<String> = eqs.iter().map(|(a, b)| self.atom_eq(*a, *b)).collect();
+                    terms.push(format!("(ite (and {} true) {m} 0)", conds.join(" ")));
+                }
+                format!("(= (mod (+ {}) {}) 0)", terms.join(" "), self.p)
+            }
         }
     }
 
